@@ -168,7 +168,12 @@ def run_case(c, rng, props):
         if "rev" in c.modes:
             try:
                 vjp, val = make_vjp(fk)(x)
-                vj = vjp(g.reshape(yv.shape) if yv.shape else (g.reshape(())[()]))
+                gg = g.reshape(yv.shape) if yv.shape else (g.reshape(())[()])
+                vj = vjp(gg)
+                # the pull-back is a function of its argument only: a second call gives the same value
+                vj2 = vjp(gg)
+                if not (onp.shape(vj2) == onp.shape(vj) and onp.array_equal(onp.asarray(vj2), onp.asarray(vj), equal_nan=True)):
+                    problems.append(("C01", k, "calling the same VJP function twice gives two different results"))
             except Exception as ex:
                 stats["raised"] += 1
                 vj = None
@@ -205,7 +210,11 @@ def run_case(c, rng, props):
                                 break
         if "fwd" in c.modes:
             try:
-                val, jv = make_jvp(fk)(x)(v.reshape(xa.shape) if xa.shape else (v.reshape(())[()]))
+                vv = v.reshape(xa.shape) if xa.shape else (v.reshape(())[()])
+                val, jv = make_jvp(fk)(x)(vv)
+                val2, jv2 = make_jvp(fk)(x)(vv)
+                if not (onp.shape(jv2) == onp.shape(jv) and onp.array_equal(onp.asarray(jv2), onp.asarray(jv), equal_nan=True)):
+                    problems.append(("C02", k, "evaluating the same JVP twice gives two different results"))
             except Exception as ex:
                 stats["raised"] += 1
                 jv = None
@@ -686,6 +695,72 @@ def main():
                                             "class": [t for t in ("axis<0", "len(reps)<ndim", "negative-axes", "ndim>2", "non-square",
                                                                   "scalar-branch", "array-fill", "broadcast", "extra-leading-dims",
                                                                   "complex") if t in c.tag][:1]}})
+    # ---- second pass: a sample of the cases again, in another order, with the array arguments presented in
+    #      other memory layouts (Fortran order, strided and reversed-stride views).  Same values, so the same verdicts:
+    #      catches state carried from one call to the next and layout-dependent rules.
+    def relayout(a):
+        if not isinstance(a, onp.ndarray) or a.ndim == 0 or a.size == 0:
+            return a
+        r = rng.random()
+        if a.ndim >= 2 and r < 0.35:
+            return onp.asfortranarray(a)
+        if r < 0.7:
+            big = onp.zeros(tuple(2 * d for d in a.shape), dtype=a.dtype)
+            sl = tuple(slice(None, None, 2) for _ in a.shape)
+            big[sl] = a
+            return big[sl]
+        return onp.ascontiguousarray(a[::-1])[::-1]
+
+    def record(c, problems, note):
+        for (p, k, msg) in problems:
+            if p in props or p == "harness":
+                out["bad"].append({"property": p, "primitive": c.prim, "configuration": c.tag + " " + note, "argnum": k, "what": msg,
+                                   "args": [str(onp.asarray(a).tolist()) for a in c.args],
+                                   "site": {"primitive": c.prim, "property": p, "class": []}})
+    clean = [c for c in cs if (not only or c.prim in only)]
+    bad_keys = {(b["primitive"], b["configuration"]) for b in out["bad"]}
+    clean = [c for c in clean if (c.prim, c.tag) not in bad_keys]
+    frac2 = 0.5 if cfg.get("tier") == "thorough" else 0.15
+    second = [c for c in clean if rng.random() < frac2]
+    rng.shuffle(second)
+    for c in second:
+        c2 = Case(c.prim, c.tag, c.f, [relayout(a) for a in c.args], c.diff, c.exact, modes=c.modes)
+        out["dist"]["second-pass (other order, other layouts)"] = out["dist"].get("second-pass (other order, other layouts)", 0) + 1
+        try:
+            problems, _ = run_case(c2, rng, props)
+        except Exception as ex:
+            problems = [("harness", -1, "oracle could not evaluate the case: %r" % (ex,))]
+        record(c, problems, "[second pass, other memory layout]")
+    # ---- concurrent pass (C20): the same verdicts when several cases run at once in different threads
+    if cfg.get("threads"):
+        import threading
+        sample = [c for c in clean if rng.random() < (0.3 if cfg.get("tier") == "thorough" else 0.1)]
+        results = {}
+
+        def work(i, chunk):
+            r2 = random.Random(cfg["seed"] * 31 + i)
+            res = []
+            for c in chunk:
+                try:
+                    res.append((c, run_case(c, r2, props | {"C01", "C02", "C04", "C05"})[0]))
+                except Exception as ex:
+                    res.append((c, [("C20", -1, "raised under concurrency only: %r" % (ex,))]))
+            results[i] = res
+        nthreads = 4
+        for rep in range(3):
+            ths = [threading.Thread(target=work, args=(i, sample[i::nthreads])) for i in range(nthreads)]
+            for th in ths:
+                th.start()
+            for th in ths:
+                th.join()
+            for i in results:
+                for c, problems in results[i]:
+                    out["dist"]["concurrent-pass"] = out["dist"].get("concurrent-pass", 0) + 1
+                    for (p, k, msg) in problems:
+                        out["bad"].append({"property": "C20", "primitive": c.prim, "configuration": c.tag + " [4 threads at once]",
+                                           "argnum": k, "what": "correct when run alone, under concurrency: " + msg,
+                                           "args": [str(onp.asarray(a).tolist()) for a in c.args],
+                                           "site": {"primitive": c.prim, "property": "C20", "class": []}})
     out["keys"] = sorted(set(out["keys"]))
     print(json.dumps(out, default=str))
 
